@@ -4,6 +4,7 @@ and dict displays through helper functions.  With no symbolic operand every help
 the native operation.  This is the encoding step; it is regenerated from /repo on every run.
 """
 import ast
+import datetime
 import builtins
 import copy
 import importlib.abc
@@ -13,6 +14,8 @@ import re
 import socket
 import sys
 import types
+
+import z3
 
 from . import core
 from .core import Unsupported, SymInt, SymBool, mk
@@ -35,7 +38,7 @@ _dict_getitem = dict.__getitem__
 
 def _sym(x):
     t = type(x)
-    return t is SymStr or t is SymInt or t is SymBool
+    return t is SymStr or t is SymInt or t is SymBool or t is core.SymFloat
 
 
 def _anysym(it):
@@ -378,7 +381,12 @@ def _builtin_func(f, a, k):
             return x
         raise Unsupported('int() of %s' % type(x).__name__)
     if f is float:
-        raise Unsupported('float() of a symbolic value')
+        if type(x) is SymStr and len(a) == 1 and not k:
+            from .symstr import sym_float
+            return sym_float(x)
+        if type(x) is core.SymFloat:
+            return x
+        raise Unsupported('float() of %s' % type(x).__name__)
     if f is repr or f is ascii:
         return OpaqueMsg('<repr>')
     if f is bool:
@@ -480,6 +488,9 @@ def _vf_call(f, *a, **k):
                 return f(*a, **k)
             except TypeError:
                 return OpaqueMsg('<message of %s>' % type(a[0]).__name__)
+        if f is datetime.timedelta and (any(type(x) is core.SymFloat for x in a)
+                                        or any(type(x) is core.SymFloat for x in k.values())):
+            return _timedelta_model(a, k)
         if f in _BUILTIN_TYPES:
             if a and _sym(a[0]):
                 return _builtin_func(f, a, k)
@@ -488,6 +499,47 @@ def _vf_call(f, *a, **k):
                     return _symdict_from(f(*a, **k))
         return f(*a, **k)
     return f(*a, **k)
+
+
+class SymTimedelta:
+    """datetime.timedelta built from symbolic floats: total seconds as an exact z3 Real term"""
+
+    def __init__(self, total):
+        self.total = total
+
+
+_TD_MAX_DAYS = 999999999
+
+
+def _timedelta_model(a, k):
+    """datetime.timedelta(days, seconds, microseconds, milliseconds, minutes, hours, weeks) on exact
+    rationals: NaN -> ValueError and infinity -> OverflowError, whichever argument the C constructor
+    meets first (microseconds, milliseconds, seconds, minutes, hours, days, weeks); a total outside
+    +-999999999 days -> OverflowError.  Rounding to microseconds is not modelled."""
+    names = ('days', 'seconds', 'microseconds', 'milliseconds', 'minutes', 'hours', 'weeks')
+    args = dict(zip(names, a))
+    args.update(k)
+    if set(args) - set(names):
+        raise Unsupported('timedelta keyword')
+    STUBS_USED.add('datetime.timedelta (exact rational arithmetic; NaN / infinity / range errors as in CPython)')
+    import fractions
+    unit = {'microseconds': fractions.Fraction(1, 10 ** 6), 'milliseconds': fractions.Fraction(1, 1000),
+            'seconds': 1, 'minutes': 60, 'hours': 3600, 'days': 86400, 'weeks': 604800}
+    total = core.real_term(0)
+    for nm in ('microseconds', 'milliseconds', 'seconds', 'minutes', 'hours', 'days', 'weeks'):
+        if nm not in args:
+            continue
+        kind, v = core.float_parts(args[nm])
+        if kind == 'nan':
+            raise ValueError('cannot convert float NaN to integer')
+        if kind in ('inf', 'ninf'):
+            raise OverflowError('cannot convert float infinity to integer')
+        total = total + core.real_term(v) * core.real_term(unit[nm])
+    lo = core.real_term(-_TD_MAX_DAYS * 86400)
+    hi = core.real_term((_TD_MAX_DAYS + 1) * 86400)
+    if core.mk(z3.Or(total < lo, total >= hi)):
+        raise OverflowError('days; must have magnitude <= 999999999')
+    return SymTimedelta(z3.simplify(total))
 
 
 _LRU_TYPE = type(__import__('functools').lru_cache(lambda: None))
